@@ -8,7 +8,7 @@ use crate::{
     info_source::InfoSource, info_timestamp::InfoTimestamp, nack_frag::NackFrag,
     submessage_flag::*,
   },
-  structure::guid::EntityId,
+  structure::{guid::EntityId, sequence_number::SequenceNumber},
 };
 #[cfg(feature = "security")]
 use super::{
@@ -60,6 +60,55 @@ impl<C: Context> Writable<C> for ReaderSubmessage {
     match self {
       ReaderSubmessage::AckNack(s, _f) => writer.write_value(s),
       ReaderSubmessage::NackFrag(s, _f) => writer.write_value(s),
+    }
+  }
+}
+
+impl WriterSubmessage {
+  // The sequence numbers are in the ranges that the validity rules of the RTPS
+  // spec (sections 8.3.8.x.3) and common sense allow. Anything else is to be
+  // discarded, before someone starts computing with it.
+  pub fn sequence_numbers_are_valid(&self) -> bool {
+    let one = SequenceNumber::new(1);
+    let zero = SequenceNumber::zero();
+    let max = SequenceNumber::MAX_PLAUSIBLE;
+    match self {
+      WriterSubmessage::Data(d, _) => d.writer_sn >= one && d.writer_sn <= max,
+      WriterSubmessage::DataFrag(d, _) => d.writer_sn >= one && d.writer_sn <= max,
+      WriterSubmessage::Gap(g, _) => {
+        g.gap_start >= one && g.gap_start <= max && g.gap_list.base() >= one && g.gap_list.base() <= max
+      }
+      // The spec says first_sn <= 0 is invalid. We have tolerated zero so far.
+      WriterSubmessage::Heartbeat(h, _) => {
+        h.first_sn >= zero
+          && h.first_sn <= max
+          && h.last_sn >= zero
+          && h.last_sn <= max
+          && h.last_sn.plus_1() >= h.first_sn
+      }
+      WriterSubmessage::HeartbeatFrag(h, _) => h.writer_sn >= one && h.writer_sn <= max,
+    }
+  }
+}
+
+impl ReaderSubmessage {
+  // See WriterSubmessage::sequence_numbers_are_valid()
+  pub fn sequence_numbers_are_valid(&self) -> bool {
+    let max = SequenceNumber::MAX_PLAUSIBLE;
+    match self {
+      // The spec says base <= 0 is invalid. We have tolerated zero so far.
+      ReaderSubmessage::AckNack(a, _) => {
+        a.reader_sn_state.base() >= SequenceNumber::zero() && a.reader_sn_state.base() <= max
+      }
+      // Fragment numbers start from 1, and the numbers in the set (up to base + 255)
+      // must be expressible.
+      ReaderSubmessage::NackFrag(n, _) => {
+        let frag_base = u32::from(n.fragment_number_state.base());
+        n.writer_sn >= SequenceNumber::new(1)
+          && n.writer_sn <= max
+          && frag_base >= 1
+          && frag_base <= u32::MAX - 256
+      }
     }
   }
 }
